@@ -208,10 +208,16 @@ class C15(Check):
                 label = "batch %d/%d (%d commands)" % (b + 1, spec["batches"], len(cmds))
             else:
                 for t in targets:
-                    for nm in sorted(model[t]):
-                        cmds.append('ea_rm "%s" "%s"' % (t, nm))
-                        intents.append(("rm", t, nm, None))
-                label = "cleanup (%d removals)" % len(cmds)
+                    names = sorted(model[t])
+                    while names:
+                        # several names in one ea_rm go through one open xattr handle
+                        k = rng.range(2, 4) if (len(names) > 1 and rng.chance(0.5)) else 1
+                        grp, names = names[:k], names[k:]
+                        if sum(len(n) for n in grp) > 900:
+                            grp, names = grp[:1], grp[1:] + names
+                        cmds.append('ea_rm "%s" %s' % (t, " ".join('"%s"' % n for n in grp)))
+                        intents.append(("rm", t, grp if len(grp) > 1 else grp[0], None))
+                label = "cleanup (%d removal commands)" % len(cmds)
             if not cmds:
                 continue
             rr = run_debugfs_merged(img, cmds, wd, "b%d" % b, clock, rng.u64() >> 1)
@@ -236,7 +242,14 @@ class C15(Check):
                     else:
                         model[t][nm] = v
                 else:
-                    if not failed:
+                    if isinstance(nm, list):
+                        if not failed:
+                            for n_ in nm:
+                                model[t].pop(n_, None)
+                        else:
+                            o.violate("rm|refused", "ea_rm of existing attributes %s failed (%s) during %s: %s" % ([x[:30] for x in nm], msgs[:2], label, where0),
+                                      skey="rm_refused")
+                    elif not failed:
                         model[t].pop(nm, None)
                     elif nm in model[t]:
                         o.violate("rm|refused", "ea_rm of an existing attribute failed (%s) during %s: %s" % (msgs[:2], label, where0), skey="rm_refused")
